@@ -30,6 +30,19 @@ void vh_fmm_segments_hilbert(std::map<std::string, std::vector<fmm::Segment>>& o
         res.nontrivial = nt; res.sig = fmm::confSig<E>(c, occ); res.ev("configurations");
     };
     out["c01"].push_back(s);
+    // target/source mode with the Hilbert ordering: per-pair counts (each target gets each source exactly once); the group list builders
+    // are called there with the "existence is tested at use" convention, which single-tree runs never exercise
+    fmm::Segment t; t.name = "c09-seq-hilbert-D3";
+    t.count = [](bool th) { return th ? 1200L : 40L; };
+    t.run = [](long kk, uint64_t seed, bool, vh::Result& res) {
+        vh::Rng r(vh::mix(seed ^ 0xC09B, uint64_t(kk)));
+        auto c = fmm::randomTsmConf<E>(r, vh::mix(seed, kk), 60, 1);   // the disjoint-halves relation draws up to twice as many: stays below the 128 ids of the per-pair probe
+        res.desc = fmm::tsmDesc<E>(c) + " executor=TbfAlgorithmTsm";
+        bool nt = false;
+        fmm::runSetTsm<E>(c, res, [&](auto& tree, const auto& cfg) { TbfAlgorithmTsm<double, typename E::SetKernel, typename E::Space> a(cfg, c.upper); a.execute(tree); }, nt, false);
+        res.nontrivial = nt; res.sig = "tsm-hilbert:" + vh::str(vh::mix(c.seed, 4));
+    };
+    out["c09"].push_back(t);
 }
 #else
 void VH_FN(std::map<std::string, std::vector<fmm::Segment>>& out) {
